@@ -1,4 +1,5 @@
 pub mod c01;
+pub mod c02;
 pub mod c08;
 
 pub fn dispatch(prop: &str, tier: &str, seed: u64, path: Option<&str>) -> i32 {
@@ -10,6 +11,7 @@ pub fn dispatch(prop: &str, tier: &str, seed: u64, path: Option<&str>) -> i32 {
         let Some(a) = crate::shard::parse_shard_args(&args) else { return 2 };
         match prop {
             "C08" => c08::child(&real_tier, seed, a),
+            "C02" => c02::child(&real_tier, seed, a),
             _ => return 2,
         }
         return 0;
@@ -17,6 +19,7 @@ pub fn dispatch(prop: &str, tier: &str, seed: u64, path: Option<&str>) -> i32 {
     match prop {
         "C01" => c01::run(tier, seed),
         "C08" => c08::run(tier, seed),
+        "C02" => c02::run(tier, seed),
         _ => {
             eprintln!("unknown property {prop}");
             2
